@@ -142,6 +142,10 @@ def predicate(op, il, mres, tag):
     o = _kv(_oracle["v"])
     if il.startswith("panic") or il.startswith("crash"):
         return ("Relic.Props.C16.raw_nodes_verbatim", mres, "implementation crashed")
+    if k == "tskeep":
+        if il != "ok same=1 reparse=ok":
+            return ("Relic.Props.C16.raw_nodes_verbatim", "ok same=1 reparse=ok", "a timestamp token obtained earlier changed (or no longer parses / verifies) after later replies through the same client: " + il)
+        return None
     if k == "rej":
         if il != "err parse":
             return ("Relic.Props.C16.foreign_nonminimal_rejected", "err parse", "BER variant accepted: digested bytes may differ from the emitted ones")
@@ -205,6 +209,14 @@ def predicate(op, il, mres, tag):
                 return ("Relic.Props.C16.required_attrs_once", "ct=1/1 md=1/1 mdok=1", "ct=%s md=%s mdok=%s" % (o.get("ct"), o.get("md"), o.get("mdok")))
         if o.get("verify") != "ok" and not kind.startswith("callerdup"):
             return ("Relic.Props.C16.attrs_digested_as_emitted", "verify=ok", "builder output does not verify: " + str(o.get("verify")))
+        if not kind.startswith("callerdup"):
+            # independent of lib/pkcs7's own reading of "the content"
+            if o.get("emitted") != "same":
+                return ("Relic.Props.C16.content_digested_as_emitted", "emitted=same", "the encapsulated content is not the content that was signed: " + str(o.get("emitted")))
+            if o.get("direct") != "1":
+                return ("Relic.Props.C16.content_digested_as_emitted", "direct=1", "the signature value is not over the digest of the emitted attributes / content (checked with the key directly)")
+            if o.get("detv") != "ok":
+                return ("Relic.Props.C16.content_digested_as_emitted", "detv=ok", "the detached copy does not verify against the original content: " + str(o.get("detv")))
         return None
     return None
 
